@@ -48,13 +48,16 @@ def bool_eval(expr: ast.AST, atom) -> bool | None:
 
 
 class Decider:
-    def __init__(self, prog: Program, atom: Atom, max_depth: int = 3, value_leaf=None, symbolic: set[str] | None = None) -> None:
+    def __init__(self, prog: Program, atom: Atom, max_depth: int = 3, value_leaf=None, symbolic: set[str] | None = None,
+                 track_aug: bool = True) -> None:
         self.prog = prog
         self.atom = atom
         self.max_depth = max_depth
         # qualnames of one-argument repo functions kept symbolic: f(x) evaluates to ("call", qual, value of x)
         self.symbolic = symbolic or set()
         self._cur: tuple | None = None
+        # x += v: concatenate onto the tracked value (True) or keep the base value and only report the event (False)
+        self.track_aug = track_aug
         # value_leaf(fi, expr, aliases) -> hashable | None: lets a rule name non-constant results (e.g. "element.tight")
         self.value_leaf = value_leaf
 
@@ -211,7 +214,9 @@ class Decider:
                         env.update({x.id: v for x, v in zip(tg.elts, vals) if v != frozenset({UNKNOWN})})
                 elif isinstance(a, ast.AugAssign) and isinstance(a.target, ast.Name):
                     outs = outs + (("aug", a.target.id, n),)
-                    if isinstance(a.op, ast.Add) and a.target.id in env:
+                    if not self.track_aug:
+                        pass
+                    elif isinstance(a.op, ast.Add) and a.target.id in env:
                         # x += v on a tracked string value: concatenation
                         rs = self.ev(fi, a.value, env, benv, aliases, depth)
                         ls = env[a.target.id]
